@@ -57,8 +57,9 @@ Print Assumptions C09_first_lost_is_delivered.
 (* After the user closes, or after ANY protocol reports lost or closed (x), the device
    object is blocked for good: the rest of the run (post) is the run from a blocked state in
    which every guarded member and push start/stop raise the blocked-state error, close()
-   returns the same task set and calls nobody, and further reports call nobody but (at
-   most) the listener. *)
+   returns the same task set and calls nobody, further reports call nobody but (at most)
+   the device listener, and running the loop delivers NOTHING to the push listener - neither
+   play statuses nor errors, including those that were scheduled before the close. *)
 Theorem C09_blocked_after_close :
   forall c pre x post,
     is_closing x = true ->
@@ -98,12 +99,13 @@ Proof. intros c h. exact (close_results c h init (or_introl init_open)). Qed.
 Print Assumptions C09_close_idempotent.
 
 (* ... and over a whole history the collaborators are called like this and not otherwise:
-   updater start/stop while open, then - at most once - every push updater stopped, the
-   session closed, every protocol closed once, in order; then nobody, ever (in particular no
-   updater is started again and nothing is closed twice). *)
+   updater start/stop and push deliveries (updates, errors) while open, then - at most once -
+   every push updater stopped, the session closed, every protocol closed once, in order; then
+   nobody, ever: no updater is started again, nothing is closed twice, and the push listener
+   receives neither an update nor an error any more. *)
 Theorem C09_close_once_push_stops :
   forall c h,
-    exists pre, forallb is_upd pre = true /\
+    exists pre, forallb is_pre pre = true /\
       (calls_only (trace c init h) = pre \/ calls_only (trace c init h) = pre ++ close_calls c).
 Proof. intros c h. exact (calls_shape c h init init_open). Qed.
 Print Assumptions C09_close_once_push_stops.
@@ -119,10 +121,20 @@ Proof.
 Qed.
 Print Assumptions C09_push_never_forwarded_again.
 
+(* the error path spelled out: after a closing event everything the push listener could get -
+   PushGot false (update) and PushGot true (error) alike - is gone, for every continuation,
+   even if it had been scheduled on the loop before *)
+Theorem C09_push_listener_silent_after_close :
+  forall c pre x post,
+    is_closing x = true ->
+    calls_only (trace c (final c init (pre ++ [x])) post) = [].
+Proof. intros c pre x post E. apply calls_only_closed. now apply final_closing. Qed.
+Print Assumptions C09_push_listener_silent_after_close.
+
 (* ---- non-vacuity: concrete, non-trivial instances -------------------------------------- *)
 
 Definition ex_cfg : cfg :=
-  {| protos := [ {| dmaplike := false; ntasks := 2 |}; {| dmaplike := true; ntasks := 0 |} ]; lst := LLive |}.
+  {| protos := [ {| dmaplike := false; ntasks := 2 |}; {| dmaplike := true; ntasks := 0 |} ]; lst := LLive; mainp := 0 |}.
 
 Example C09_ex_trace :
   trace ex_cfg init [PushStart; Lost 1 0; Closed 0; UserClose; PushStart] =
@@ -134,6 +146,12 @@ Example C09_ex_user_close_first :
   map snd (run ex_cfg init [UserClose; Lost 0 1; UserClose]) =
     [RTasks [TSess; TProto 0 0; TProto 0 1]; RNone; RTasks [TSess; TProto 0 0; TProto 0 1]].
 Proof. split; vm_compute; reflexivity. Qed.
+
+Example C09_ex_error_path :
+  trace ex_cfg init [PushStart; PostErr 0; PostPlay 1; PostPlay 0; RunLoop; PostErr 0; Lost 0 0; RunLoop; PostErr 0; RunLoop] =
+    [UpdStart 0; UpdStart 1; PushGot true 0; PushGot false 0;
+     UpdStop 0; UpdStop 1; SessClose; ProtoClose 0; ProtoClose 1; Notify (NLost 0 0)].
+Proof. vm_compute. reflexivity. Qed.
 
 Example C09_ex_member : exists m mem, nth_error members m = Some mem /\ is_exempt mem = false.
 Proof. exists 1. eexists. split; [reflexivity|]. vm_compute. reflexivity. Qed.
